@@ -4,6 +4,7 @@
    with an unknown message-id is an error, not a delivery"; non-XML payloads never reach callers. The parser-level
    clauses are in Props/C14.v. *)
 From NC Require Import Model.Base Model.SessionLTS Proofs.SessionLTSProofs.
+From NC Require Import Model.SessionSoft Proofs.SessionSoftProofs.
 
 Theorem C14_worker_stop : forall s, reach s -> pc s = WExited ->
   connected s = false /\
@@ -47,6 +48,130 @@ Example C14_ex_framing_break :
             LRaise 6; LErrBcast 6; LTValues [100; 101]; LTClear; LEvSetErr 0; LEvSetErr 1; LClose 0; LExit;
             LWaitRes 0 true; LWaitRes 1 true ] with
   | Some s => map r_st (reqs s) = [CDone (OExc 6); CDone (OExc 6)] /\ pc s = WExited /\ connected s = false
+  | None => False
+  end.
+Proof. vm_compute. repeat split; reflexivity. Qed.
+
+(* ====== histories "hostile message, then later requests" (Model/SessionSoft.v): the session LTS extended with the
+   NON-FATAL error broadcast of Session._dispatch_message (a payload that is not XML and that the device profile
+   answers with an exception: the outstanding requests get that error, the worker goes back into its loop) and with
+   the <notification> whose body is not well-formed.  The statements above are about the base system; the ones below
+   hold in every reachable state of the extended system, i.e. after any number of such messages. ====== *)
+
+(* the extension is conservative *)
+Theorem C14x_conservative : forall s, reach s -> xreach (inj s).
+Proof. exact reach_xreach. Qed.
+Print Assumptions C14x_conservative.
+
+Theorem C14x_base_step : forall x l, sp x = SNone -> xstep x (XB l) = lift x (step (base x) l).
+Proof. exact xstep_base. Qed.
+Print Assumptions C14x_base_step.
+
+(* a hostile message never becomes a reply, a notification or the end of the session: all its steps can do is store
+   an error in a request and set its event *)
+Theorem C14x_hostile_frame : forall x l x',
+  xstep x l = Some x' -> hostile_step x l = true ->
+  connected (base x') = connected (base x) /\ closing (base x') = closing (base x) /\ pc (base x') = pc (base x) /\
+  outq (base x') = outq (base x) /\ nq (base x') = nq (base x) /\ wrote (base x') = wrote (base x) /\
+  deliver_log (base x') = deliver_log (base x) /\ recv_notifs (base x') = recv_notifs (base x) /\
+  taken (base x') = taken (base x) /\
+  (forall rid r', rq (base x') rid = Some r' ->
+     exists r, rq (base x) rid = Some r /\ r_id r' = r_id r /\ r_reply r' = r_reply r /\ r_st r' = r_st r).
+Proof. exact c14x_hostile_frame. Qed.
+Print Assumptions C14x_hostile_frame.
+
+(* In every reachable state of the extended system, i.e. after any number of hostile messages:
+   (1) a stored reply carries the request's own id;  (2) no request is delivered twice;
+   (3) no request is ever lost: one without reply and without error is in the pending table, or in the snapshot a
+       (fatal or non-fatal) broadcast is still failing - the error of a hostile message goes to the requests pending at
+       that moment and to nobody else, now or later;
+   (4) during a non-fatal broadcast, and when it is over, the worker is in its loop (idle), nothing was closed;
+   (5) the snapshot of a non-fatal broadcast is the whole pending table;
+   (6) whenever the worker has stopped: disconnected, not inside a non-fatal broadcast, every written and unanswered
+       request failed. *)
+Theorem C14x_reachable : forall x, xreach x ->
+  (forall rid r i, rq (base x) rid = Some r -> r_reply r = Some i -> i = r_id r) /\
+  NoDup (deliver_log (base x)) /\
+  (forall rid r, rq (base x) rid = Some r -> r_reply r = None -> r_error r = None ->
+     tget (r_id r) (table (base x)) = Some rid \/ In rid (pc_rids (pc (base x))) \/ In rid (sp_rids (sp x))) /\
+  (sp x <> SNone -> pc (base x) = WIdle) /\
+  (forall e rids id rid, sp x = SClear e rids -> tget id (table (base x)) = Some rid -> In rid rids) /\
+  (pc (base x) = WExited ->
+     connected (base x) = false /\ sp x = SNone /\
+     (forall rid r, rq (base x) rid = Some r -> In rid (wrote (base x)) -> r_reply r = None -> r_error r <> None /\ r_ev r = true)).
+Proof. exact c14x_reachable. Qed.
+Print Assumptions C14x_reachable.
+
+(* each entry of the snapshot gets the error, nothing else changes *)
+Theorem C14x_soft_fail : forall x rid x',
+  xstep x (XB (LEvSetErr rid)) = Some x' -> sp x <> SNone ->
+  exists e rest, sp x = SDeliver e (rid :: rest) /\ sp x' = after_rids e rest /\
+                 rq (base x') rid = option_map (set_error e) (rq (base x) rid) /\
+                 (forall rid', rid' <> rid -> rq (base x') rid' = rq (base x) rid').
+Proof. exact c14x_soft_fail. Qed.
+Print Assumptions C14x_soft_fail.
+
+(* later requests work normally: a request made during or after the broadcast is recorded ... *)
+Theorem C14x_register : forall x rid id x',
+  xstep x (XB (LReg rid id)) = Some x' ->
+  tget id (table (base x')) = Some rid /\
+  rq (base x') rid = Some {| r_id := id; r_st := CReg; r_reply := None; r_error := None; r_ev := false |} /\
+  sp x' = sp x.
+Proof. exact c14x_register. Qed.
+Print Assumptions C14x_register.
+
+(* ... and the valid reply the server sends for it is delivered to it (the delivery is enabled and stores exactly
+   that request's reply), whatever hostile messages came before *)
+Theorem C14x_later_served : forall x id rid,
+  xreach x -> sp x = SNone -> pc (base x) = WIdle -> tget id (table (base x)) = Some rid ->
+  exists x' r', xrun x [XB (LRecv 0 id); XB (LTGet id true); XB (LEvSetReply rid); XB (LTDel id)] = Some x' /\
+    rq (base x') rid = Some r' /\ r_reply r' = Some id /\ r_ev r' = true /\ r_id r' = id /\
+    pc (base x') = WIdle /\ sp x' = SNone /\ connected (base x') = connected (base x).
+Proof. exact c14x_later_served. Qed.
+Print Assumptions C14x_later_served.
+
+(* a <notification> whose start tag is fine and whose body is not well-formed is never queued for take_notification:
+   the worker leaves its loop with an exception, from where it can only fail everybody and stop (C14_raise_only) *)
+Theorem C14x_bad_notif : forall x n x',
+  xstep x (XRecvBadNotif n) = Some x' ->
+  sp x = SNone /\ sp x' = SNone /\ pc (base x') = WRaise 3 /\ nq (base x') = nq (base x) /\
+  recv_notifs (base x') = recv_notifs (base x) /\ taken (base x') = taken (base x) /\ reqs (base x') = reqs (base x).
+Proof. exact c14x_bad_notif. Qed.
+Print Assumptions C14x_bad_notif.
+
+(* Non-vacuity: request 0 answered; request 1 outstanding when the hostile message arrives (the profile answers it
+   with exception class 2): request 1 gets that error, nothing is closed; then request 2 is made, written, answered:
+   it holds its own reply, the session is connected, the worker idle. *)
+Example C14x_ex_hostile_then_later :
+  match xrun (xinit false)
+          [ XB (LReg 0 100); XB (LChk 0 true); XB (LPut 0); XB (LDeq 0); XB (LReg 1 101); XB (LChk 1 true); XB (LPut 1); XB (LDeq 1);
+            XB (LRecv 0 100); XB (LTGet 100 true); XB (LEvSetReply 0); XB (LTDel 100); XB (LWaitRes 0 true);
+            XRecvErr 2; XB (LErrBcast 2); XB (LTValues [101]); XB LTClear; XB (LEvSetErr 1);
+            XB (LReg 2 102); XB (LChk 2 true); XB (LPut 2); XB (LDeq 2); XB (LWaitRes 1 true);
+            XB (LRecv 0 102); XB (LTGet 102 true); XB (LEvSetReply 2); XB (LTDel 102); XB (LWaitRes 2 true) ] with
+  | Some x => map r_st (reqs (base x)) = [CDone (OReply 100); CDone (OExc 2); CDone (OReply 102)] /\
+              pc (base x) = WIdle /\ sp x = SNone /\ connected (base x) = true /\ softs x = [2] /\ table (base x) = []
+  | None => False
+  end.
+Proof. vm_compute. repeat split; reflexivity. Qed.
+
+(* ... a request registered while the errback still delivers the error is not touched by it *)
+Example C14x_ex_register_during :
+  match xrun (xinit false)
+          [ XB (LReg 0 100); XB (LChk 0 true); XB (LPut 0); XB (LDeq 0);
+            XRecvErr 2; XB (LErrBcast 2); XB (LTValues [100]); XB LTClear; XB (LReg 1 101); XB (LEvSetErr 0);
+            XB (LChk 1 true); XB (LPut 1); XB (LDeq 1); XB (LRecv 0 101); XB (LTGet 101 true); XB (LEvSetReply 1); XB (LTDel 101) ] with
+  | Some x => map r_error (reqs (base x)) = [Some 2; None] /\ map r_reply (reqs (base x)) = [None; Some 101] /\ connected (base x) = true
+  | None => False
+  end.
+Proof. vm_compute. repeat split; reflexivity. Qed.
+
+(* ... and a malformed notification ends the session with the error delivered to the pending request, nothing queued *)
+Example C14x_ex_bad_notif :
+  match xrun (xinit true)
+          [ XB (LReg 0 100); XB (LChk 0 true); XB (LPut 0); XB (LDeq 0); XRecvBadNotif 52;
+            XB (LErrBcast 3); XB (LTValues [100]); XB LTClear; XB (LEvSetErr 0); XB (LClose 0); XB LExit; XB (LWaitRes 0 true); XB (LTake false 0) ] with
+  | Some x => map r_st (reqs (base x)) = [CDone (OExc 3)] /\ pc (base x) = WExited /\ connected (base x) = false /\ nq (base x) = [] /\ taken (base x) = []
   | None => False
   end.
 Proof. vm_compute. repeat split; reflexivity. Qed.
